@@ -42,6 +42,10 @@ type Case struct {
 	// of that field (for a struct-typed field: the whole subtree below it is
 	// addressed through the alias name).
 	Supply map[string]uint64 `json:"supply"`
+	// Elems gives, for every supplied leaf that is a slice of structs (decoder
+	// checks only), its elements: each element maps expanded-leaf keys relative
+	// to the element type to value seeds, exactly like Supply does for the root.
+	Elems map[string][]map[string]uint64 `json:"elems,omitempty"`
 	// NoSetSlice (decoder checks only) models ez Params.DisableAutoSetToSlice:
 	// the decoder is wrapped with the alias mangler alone and string sets are
 	// written in the format's native map spelling.
@@ -275,9 +279,14 @@ func (d *decorator) decorateEmbed(f *shape.Field, aliasedAbove int) {
 	f.Tag = strings.Join(tags, " ")
 }
 
-func profile() shape.Profile {
+func profile(src srcKind) shape.Profile {
+	lt := leafTypes
+	if !src.flatten {
+		// only documents can spell a slice of structs
+		lt = append(append([]string{}, leafTypes...), elemLeafTypes...)
+	}
 	return shape.Profile{
-		LeafTypes:  leafTypes,
+		LeafTypes:  lt,
 		Nested:     []string{"struct", "pstruct", "embed", "pembed"},
 		EmbedTypes: generatedEmbedTypes,
 		MaxDepth:   3, MaxFields: 4, MinFields: 1,
@@ -292,6 +301,40 @@ type supplyGen struct {
 }
 
 func (g *supplyGen) seed() uint64 { return rapid.Uint64().Draw(g.t, "value_seed") }
+
+func (g *supplyGen) drawElemCount() int {
+	if g.m.src.name == "toml" {
+		// go-toml cannot type an empty array as an array of tables
+		// ("Can't convert []([]interface {}) to a slice"), with or without
+		// aliases: no empty slice of structs in TOML
+		return rapid.SampledFrom([]int{1, 1, 2, 2, 3}).Draw(g.t, "elements")
+	}
+	return rapid.SampledFrom([]int{0, 1, 1, 2, 2, 3}).Draw(g.t, "elements")
+}
+
+// fillElems draws the elements of every supplied slice-of-struct leaf.
+func (g *supplyGen) fillElems() map[string][]map[string]uint64 {
+	byKey := map[string]xleaf{}
+	for _, x := range g.m.expand() {
+		byKey[x.key] = x
+	}
+	var out map[string][]map[string]uint64
+	for _, k := range shape.SortedKeys(g.supply) {
+		x := byKey[k]
+		if _, ok := elemTypeOf(x.f.typ); !ok {
+			continue
+		}
+		els, err := g.genElems(x.f)
+		if err != nil {
+			g.t.Fatalf("element model: %v", err)
+		}
+		if out == nil {
+			out = map[string][]map[string]uint64{}
+		}
+		out[k] = els
+	}
+	return out
+}
 
 func (g *supplyGen) pattern() int {
 	// 0 neither, 1 primary, 2 alias, 3 both
@@ -452,7 +495,7 @@ func extraWord(i int) string {
 
 func genCase(src srcKind) func(*rapid.T) Case {
 	return func(t *rapid.T) Case {
-		s := shape.Gen(t, profile())
+		s := shape.Gen(t, profile(src))
 		d := &decorator{t: t, src: src, used: map[string]bool{}}
 		d.allowClassA = rapid.IntRange(0, 5).Draw(t, "allow_class_a") == 0
 		d.decorate(s.Fields, 0)
@@ -467,6 +510,7 @@ func genCase(src srcKind) func(*rapid.T) Case {
 		c := Case{Shape: s, Supply: g.supply}
 		if !src.flatten {
 			c.NoSetSlice = rapid.Bool().Draw(t, "no_set_slice")
+			c.Elems = g.fillElems()
 		}
 		return c
 	}
@@ -488,6 +532,7 @@ func ezWrap(d dials.Decoder, noSetSlice bool) dials.Decoder {
 type supplied struct {
 	x   xleaf
 	val reflect.Value
+	doc string // pre-rendered document spelling (slice-of-struct leaves)
 }
 
 func execute(src srcKind, T, pt reflect.Type, sup []supplied, noSetSlice bool) (val reflect.Value, err error, panicked any) {
@@ -547,6 +592,10 @@ func execute(src srcKind, T, pt reflect.Type, sup []supplied, noSetSlice bool) (
 	}
 	root := &docNode{}
 	for _, s := range sup {
+		if s.doc != "" {
+			root.put(s.x.docPath, s.doc)
+			continue
+		}
 		root.put(s.x.docPath, docValue(s.val, src.name == "toml", noSetSlice))
 	}
 	var doc string
@@ -619,16 +668,43 @@ func runCase(src srcKind) func(Case) vrt.Verdict {
 		keys := shape.SortedKeys(c.Supply)
 		sup := make([]supplied, 0, len(keys))
 		zeroSupplied := false
+		elemVals := map[string]reflect.Value{}
+		var elemBoth []*mfield
+		var elemPats []patInst
+		elemSupplied := false
 		for _, k := range keys {
 			x, ok := byKey[k]
 			if !ok {
 				return vrt.Discardf("supply key is not an expanded leaf of the type")
+			}
+			if _, isElem := elemTypeOf(x.f.typ); isElem {
+				if src.flatten {
+					return vrt.Discardf("slice of structs in a flatten source")
+				}
+				v, doc, both, pats, err := m.elemLeaf(x.f, c.Elems[k], src.name == "toml", c.NoSetSlice, false)
+				if err != nil {
+					return vrt.Discardf("malformed elements")
+				}
+				if v.Len() == 0 && src.name == "toml" {
+					return vrt.Discardf("TOML cannot spell an empty slice of structs")
+				}
+				elemVals[k], elemBoth, elemPats = v, append(elemBoth, both...), append(elemPats, pats...)
+				elemSupplied = elemSupplied || v.Len() > 0
+				sup = append(sup, supplied{x: x, val: v, doc: doc})
+				continue
 			}
 			v := makeVal(x.f.typ, c.Supply[k])
 			zeroSupplied = zeroSupplied || isZeroScalar(v)
 			sup = append(sup, supplied{x: x, val: v})
 		}
 		ev := m.eval(c.Supply)
+		ev.both = append(ev.both, elemBoth...)
+		valOf := func(f *mfield, key string) reflect.Value {
+			if v, ok := elemVals[key]; ok {
+				return v
+			}
+			return makeVal(f.typ, c.Supply[key])
+		}
 
 		pt := ptrify.Pointerify(T, reflect.New(T).Elem())
 		got, gerr, panicked := execute(src, T, pt, sup, c.NoSetSlice)
@@ -639,6 +715,10 @@ func runCase(src srcKind) func(Case) vrt.Verdict {
 				n := s.x.name
 				if !src.flatten {
 					n = strings.Join(s.x.docPath, "/")
+				}
+				if s.doc != "" {
+					parts = append(parts, fmt.Sprintf("%s(%s)=%s", n, s.x.key, s.doc))
+					continue
 				}
 				parts = append(parts, fmt.Sprintf("%s(%s)=%s", n, s.x.key, textOf(s.val)))
 			}
@@ -653,6 +733,9 @@ func runCase(src srcKind) func(Case) vrt.Verdict {
 			return "", false
 		}
 
+		if panicked != nil && elemSupplied && strings.Contains(fmt.Sprint(panicked), "reflect.Value.IsNil") {
+			return vrt.KeyedViolationf("alias-in-slice-element", "%s: an alias tag on a field of a struct held in a slice makes the alias-wrapped decoder panic once the slice has an element: %v; supplied: %s", src.name, panicked, describe())
+		}
 		if panicked != nil {
 			return vrt.KeyedViolationf("panic-"+src.name, "%s source panicked: %v; supplied: %s", src.name, panicked, describe())
 		}
@@ -683,7 +766,7 @@ func runCase(src srcKind) func(Case) vrt.Verdict {
 				}
 				return vrt.KeyedViolationf("spurious-error", "%s: no field is supplied under both names, but the source failed: %v; supplied: %s", src.name, gerr, describe())
 			}
-			want, werr := m.want(pt, ev.set)
+			want, werr := m.want(pt, ev.set, valOf)
 			if werr != nil {
 				return vrt.Violationf("harness: %v", werr)
 			}
@@ -710,6 +793,13 @@ func runCase(src srcKind) func(Case) vrt.Verdict {
 		}
 		emptyLabels(ev.pats, c.Supply, lab)
 		embedLabels(m, ev.pats, lab)
+		elemLabels(elemPats, lab)
+		for k, v := range elemVals {
+			lab[fmt.Sprintf("slice-of-struct:len=%d", v.Len())] = true
+			if strings.HasSuffix(k, aliasMark) {
+				lab["slice-of-struct:under-alias-name"] = true
+			}
+		}
 		if !src.flatten {
 			lab[fmt.Sprintf("set-slice-mangler:%v", !c.NoSetSlice)] = true
 		}
@@ -777,6 +867,7 @@ func runCase(src srcKind) func(Case) vrt.Verdict {
 
 func rule(src string) string {
 	return "config struct types from the shape grammar restricted to leaf types every alias-capable source reads (scalars of all integer widths, floats, bool, string, duration, []string, []int, map[string]string, string set), nested struct / pointer-struct fields to depth 3, <=4 fields per struct, and embedded (anonymous) structs, by value or by pointer, in the root struct and in nested structs: the embedded types are four named Go types of the test package (reflect cannot mint named types) with aliased leaves of scalar / slice / map type, an untagged aliased leaf, an aliased struct below the embedded one, and (EmbSrc, at most once per type and never below an aliased field) leaves carrying the source-specific primary / alias tags of all three flatten sources; the embedded field itself is untagged (3/4) or has a dials tag, and is aliased with probability 3/10; " +
+		"for the decoder checks the leaf grammar also has []ElemItem, a slice of structs whose element fields carry alias tags (aliased string, []string, struct, pointer-struct and untagged float fields, an aliased leaf below the struct fields): a supplied slice has 0..3 elements (1..3 in TOML, which cannot spell an empty array of tables), each element with its own neither / primary / alias / both pattern per aliased element field and non-zero values (elements are not pointerified, so inside an element the zero value is 'not supplied'); env, flag and pflag cannot spell slices of structs and do not get them; " +
 		"each field (leaf or struct-typed, any depth) independently gets an explicit dials tag (single word / camelCase / snake_case / kebab-case, globally unique words) or stays untagged, and a dialsalias tag with probability 1/2 (leaves) or 2/5 (struct-typed fields; at most two aliased structs on one path and no further aliases once the type has ~100 expanded names, because every aliased struct doubles the names below it); leaves not below an aliased struct may also get the source's own primary and/or alias tag (dialsenv[alias], dialsflag[alias], dialspflag[alias]; for decoders the tags of all three are noise); the combination 'source-specific primary + dialsalias, no source-specific alias' is allowed in one case in six; tag order is shuffled; Go field names are extended where needed so that flattened name concatenations stay unique. " +
 		"Per aliased field one of neither / primary only / alias only / both (half of the cases exclude 'both'); an aliased struct-typed field duplicates its subtree, 'supplied under a name' = at least one leaf of that copy supplied; other leaves set or unset at random; one scalar value in five is the zero value of its type and one collection value in four is an explicitly empty non-nil collection (NAME=\"\", -name=, [] / {}), which must count as set exactly like any other value (nil vs empty is compared exactly). " +
 		"Executed against " + src + " with names known by construction (env: PREFIX + UPPER_SNAKE join of words; flags: '-' join of tags / field words; decoders: tag path, documents rendered by the harness; an untagged embedded struct contributes no name element in the flatten sources, JSON and Cue (promotion), the lower-cased type name in YAML and the type name in TOML; with a dials tag it is an ordinary named field; its alias copy is always a named field). " +
@@ -792,6 +883,7 @@ var assumptions = []string{
 	"source-specific tags are generated only on leaf fields that are not below an aliased struct field: their names are absolute, so below an aliased struct both copies would share one name and 'which name was used' is undefined",
 	"untagged fields are addressed by the documented default of each format (Go field name for JSON/Cue/TOML, lower-cased field name for YAML)",
 	"untagged embedded structs: promoted by the flatten manglers and by encoding/json (Cue follows it); yaml.v2 does not inline without a yaml tag option and go-toml v1 does not promote a pointer-typed embedded field, so both address it by its type name (lower-cased for YAML); each checked on the unmodified tree",
+	"inside the elements of a slice of structs nothing is pointerified: 'supplied' means non-zero (non-nil for pointer / slice / map fields), so the generator only writes non-zero values there; either name sets the element field, neither leaves it zero, both non-zero is an error naming the field; arrays of structs are left out (a *[N]T field is not recursed into by any mangler, so alias tags inside array elements are ignored - reported separately)",
 	"'naming the field' = the innermost error of the returned chain (errors.Unwrap to the end) contains the Go field name in quotes, which is what AliasMangler.Unmangle prints; names of enclosing fields quoted by outer wrappers do not count",
 }
 
